@@ -88,6 +88,10 @@ pub fn prequery(w: &World, obs: &Obs, step: &Step, prop: &str) -> PreQ {
             p.insert("pnl_oracle", eq(json!({"unrealized_pnl": {"vamm": va, "trader": t, "calc_option": "oracle"}})));
             p.insert("over_spread", vq(*vamm, json!({"is_over_spread_limit": {}})));
             p.insert("underlying", vq(*vamm, json!({"underlying_price": {}})));
+            // the oracle itself: the feed's latest price under the market's key, asked of the feed and not of the vAMM
+            if obs.vamms.get(*vamm).map(|v| v.pricefeed == w.addrs.pricefeed).unwrap_or(false) {
+                p.insert("feed_latest", w.q(&w.addrs.pricefeed, json!({"get_price": {"key": crate::world::KEYS[(*vamm).min(3)]}})).map(|x| if x.is_string() { x } else { x["price"].clone() }));
+            }
             if let Some(pos) = obs.position(*vamm, &t) {
                 let sz = pos.size.unsigned_abs();
                 p.insert("out_whole", vq(*vamm, json!({"output_amount": {"direction": pos.dir.js(), "amount": sz.to_string()}})));
